@@ -1,5 +1,7 @@
 """C03 — range tests flag by inclusive interval membership, fail before suspect."""
 from .. import cases
+from ..qc import table_rule
+from ..repo import unparse
 from .common import run_carrier_sweep, run_tables
 
 
@@ -13,7 +15,16 @@ def run(ck):
         'semantics, float rounding.')
     run_tables(ck, 'C03.gross', cases.gross_range, scope='all')
     run_tables(ck, 'C03.valid', cases.valid_range, scope='all')
-    run_tables(ck, 'C03.valid', cases.valid_range_typed, scope='all')
+    for case, spec in cases.valid_range_typed(ck.tier):
+        out = table_rule(ck, 'C03.valid', case, spec, scope='all')
+        if case.meta.get('class') == 'integer-data-integer-bounds' and out is not None:
+            # structural necessary condition of "FAIL exactly the values outside the span" for integers beyond 2**53 (epoch nanoseconds,
+            # 64-bit counters): integer data and whole-number bounds meet as integers, never through float64 (whose spacing there is > 1)
+            evs = [e for e in getattr(out, 'events', []) if e['kind'] in ('int-to-float', 'int-float-compare')]
+            ck.ob('C03.valid.table', f'{case.label} exact', not evs, key='valid_range_test:integer-data-integer-bounds:compared-through-float64',
+                  what=f'{case.label}: the integer data is compared through float64 ('
+                       f'{unparse(evs[0]["node"], 70) if evs and evs[0].get("node") is not None else ""}); integers above 2**53 '
+                       'within the float spacing of a bound are flagged wrongly')
     run_carrier_sweep(ck, 'C03.gross', cases.gross_range, time=False, n_max=2)
     ck.floor('C03.gross.table', 50)
     ck.floor('C03.valid.table', 50)
